@@ -1,0 +1,53 @@
+//go:build verif
+
+package taskctl
+
+import (
+	"sync/atomic"
+	"time"
+
+	"github.com/taskctl/taskctl/pkg/scheduler"
+)
+
+// Instrumentation for runtime verification (only compiled with the "verif" build tag).
+
+// verifPause overrides the scheduler poll pause (in nanoseconds) for newly created schedulers if > 0
+var verifPause int64
+
+// verifIterationHook is called at the top of every scheduler loop iteration (it may block to park the loop)
+var verifIterationHook atomic.Value // of func(jobID string, statuses map[string]int32)
+
+// VerifSetPause overrides the poll pause of schedulers created afterwards (0 restores the default)
+func VerifSetPause(d time.Duration) {
+	atomic.StoreInt64(&verifPause, int64(d))
+}
+
+// VerifSetIterationHook registers a callback that is called at the top of every scheduler loop iteration
+// with the job id and the status of every stage. The callback may block.
+func VerifSetIterationHook(f func(jobID string, statuses map[string]int32)) {
+	verifIterationHook.Store(f)
+}
+
+func verifInit(s *Scheduler) {
+	if d := atomic.LoadInt64(&verifPause); d > 0 {
+		s.pause = time.Duration(d)
+	}
+}
+
+func (s *Scheduler) verifIteration(g *scheduler.ExecutionGraph) {
+	f, _ := verifIterationHook.Load().(func(jobID string, statuses map[string]int32))
+	if f == nil {
+		return
+	}
+	jobID := ""
+	statuses := make(map[string]int32)
+	for name, stage := range g.Nodes() {
+		statuses[name] = stage.ReadStatus()
+		if jobID == "" && stage.Variables != nil {
+			if v, ok := stage.Variables.Get(JobIDVariableName).(string); ok {
+				jobID = v
+			}
+		}
+	}
+	f(jobID, statuses)
+}
